@@ -363,6 +363,135 @@ theorem C07_multi_shared_source_witness :
   simp [Sys.run, Sys.step, setAt, QState.step, QState.updateFromVar, QState.update, QState.call,
     QState.eff, Store.asF, Rnd.exact]
 
+/-! ## 2c. variable-backed mode and compiled calls  (strengthening round, seed C07-8)
+
+  The property's "variable-backed mode used during training": with `use_variables=True` the factor
+  is held in a `tf.Variable` — for EVERY initial value, 0 included — so that a compiled function
+  (`tf.function`, the Keras train step), which runs the python body of `__call__` only once, reads
+  the CURRENT factor at every execution.  `CState` = one quantizer plus one compiled function
+  wrapping its call; `Cap` = what the traced graph holds for the factor. -/
+
+/-- `build(use_variables=True)`: whatever the factor was held in and whatever its value (0 is a
+    value like any other) it is afterwards held in a Variable with float32 of that value. -/
+theorem C07_build_variable_backed (rd : Rnd) (s : QState) :
+    (s.build rd true).store = .var (s.eff rd) ∧ (s.build rd true).store.isVar = true ∧
+      (s.build rd true).built = true := by
+  simp [QState.build, QState.eff, Store.isVar]
+
+/-- the first call of a quantizer with `use_variables=True` does the same -/
+theorem C07_first_call_variable_backed (rd : Rnd) (s : QState) (hu : s.useVars = true)
+    (hb : s.built = false) : (s.call rd).store = .var (s.eff rd) := by
+  simp [QState.call, hb, hu, build_true_store]
+
+/-- once in a Variable the factor stays in a Variable, over every operation list -/
+theorem C07_variable_backed_stays (rd : Rnd) (s : QState) (ops : List Op)
+    (h : s.store.isVar = true) : (QState.run rd s ops).store.isVar = true :=
+  isVar_run rd ops s h
+
+/-- variable mode (`use_variables=True` on an unbuilt quantizer, or a Variable already): after
+    ANY history that does not switch the mode off (`use_variables = False`, explicit
+    `build(use_variables=False)`) a call leaves the factor in a Variable. -/
+theorem C07_variable_mode_call (rd : Rnd) (s : QState) (ops : List Op) (h : s.varMode = true)
+    (hno : ∀ op ∈ ops, op ≠ .setUseVars false ∧ op ≠ .build false) :
+    ((QState.run rd s ops).call rd).store.isVar = true :=
+  (varMode_call rd _ (varMode_run rd ops s h hno)).1
+
+/-- tracing a quantizer in variable mode captures its Variable, not a constant -/
+theorem C07_compiled_trace_variable_mode (rd : Rnd) (s : QState) (h : s.varMode = true) :
+    ((⟨s, none⟩ : CState).step rd .ccall).cap = some .live ∧
+      ((⟨s, none⟩ : CState).step rd .ccall).q.built = true := by
+  have hc := varMode_call rd s h
+  refine ⟨?_, by simpa [CState.step] using hc.2⟩
+  cases hs : (s.call rd).store with
+  | py v => simp [hs, Store.isVar] at hc
+  | var v => simp [CState.step, hs, Store.capture]
+
+/-- THE COMPILED ROUTE.  A quantizer in variable mode goes through any eager history `ops0`
+    (updates before the first call, the scheduler's `set_quantizers`, …), is then called from a
+    compiled function (traced now, once), and then through any eager history `ops` (updates,
+    eager calls, `build(False)`, flipping `use_variables` — anything but an explicit second
+    `build(use_variables=True)`): the compiled function's next execution uses exactly the factor
+    an eager call would use, i.e. float32 of the last value written through the update API
+    (before or after the trace), or the constructor constant if none was. -/
+theorem C07_compiled_variable_mode (rd : Rnd) (s : QState) (ops0 ops : List Op)
+    (hmode : s.varMode = true)
+    (hno0 : ∀ op ∈ ops0, op ≠ .setUseVars false ∧ op ≠ .build false)
+    (hno : ∀ op ∈ ops, op ≠ .build true)
+    (hwf0 : ∀ op ∈ ops0, Op.WF rd op) (hwf : ∀ op ∈ ops, Op.WF rd op) :
+    let c := CState.run rd ⟨s, none⟩ (ops0.map .eager ++ .ccall :: ops.map .eager)
+    c.cap = some .live ∧ c.q.store.isVar = true ∧ c.ceff rd = c.q.eff rd ∧
+      c.ceff rd = (match lastWrite (ops0 ++ .call :: ops) with
+                   | some v => rd.r32 v
+                   | none => s.eff rd) := by
+  intro c
+  have hm := varMode_run rd ops0 s hmode hno0
+  have hcall := varMode_call rd _ hm
+  have hcap : ((QState.run rd s ops0).call rd).store.capture = .live := by
+    cases hs : ((QState.run rd s ops0).call rd).store with
+    | py v => simp [hs, Store.isVar] at hcall
+    | var v => rfl
+  have hc : c = ⟨QState.run rd s (ops0 ++ .call :: ops), some .live⟩ := by
+    show CState.run rd ⟨s, none⟩ (ops0.map .eager ++ .ccall :: ops.map .eager) = _
+    rw [crun_append, crun_eager_untraced]
+    simp only [CState.run, CState.step, hcap]
+    rw [crun_eager_live rd ops _ hcall.2 hno, qrun_append]
+    simp [QState.run, QState.step]
+  have hq : c.q = QState.run rd s (ops0 ++ .call :: ops) := by rw [hc]
+  have hwfall : ∀ op ∈ ops0 ++ .call :: ops, Op.WF rd op := by
+    intro op hop
+    rcases List.mem_append.1 hop with h | h
+    · exact hwf0 op h
+    · rcases List.mem_cons.1 h with h | h
+      · subst h; trivial
+      · exact hwf op h
+  have heff : c.ceff rd = c.q.eff rd := by rw [hc]; exact ceff_live rd _
+  refine ⟨by rw [hc], ?_, heff, ?_⟩
+  · rw [hq, qrun_append]
+    show (QState.run rd ((QState.run rd s ops0).call rd) ops).store.isVar = true
+    exact isVar_run rd ops _ hcall.1
+  · rw [heff, hq]
+    exact storage_invariant rd _ s hwfall
+
+/-- a python-number capture is frozen: if the attribute is a python number when the function is
+    traced, NO later operation (update, build, further calls) changes what the compiled function
+    computes with.  This is why the storage kind is part of the property: a `build(use_variables=
+    True)` that leaves a python number behind makes every later update invisible to training. -/
+theorem C07_compiled_python_capture_frozen (rd : Rnd) (c : CState) (v : ℚ) (os : List COp)
+    (h : c.cap = some (.const v)) :
+    (CState.run rd c os).cap = some (.const v) ∧ (CState.run rd c os).ceff rd = rd.r32 v :=
+  ⟨crun_const rd v os c h, ceff_const rd _ v (crun_const rd v os c h)⟩
+
+/-- witness at factor 0 (the falsy value): `quantized_*(qnoise_factor=0.0, use_variables=True)`,
+    called from a compiled function, `update_qnoise_factor(1/2)`: the Variable made at trace time
+    holds 0, the compiled function then uses 1/2.  Next to it what a graph holding a python 0 (a
+    `build` skipping the Variable for a falsy factor) does with the same history: the attribute
+    reads 1/2, the compiled function still uses 0. -/
+theorem C07_compiled_zero_factor_witness :
+    let s : QState := ⟨.py 0, false, true⟩
+    let c := CState.run Rnd.exact ⟨s, none⟩ [.ccall, .eager (.update (1/2))]
+    (CState.run Rnd.exact ⟨s, none⟩ [.ccall]).q.store = .var 0 ∧
+      c.q.store = .var (1/2) ∧ c.ceff Rnd.exact = 1/2 ∧
+    (let bad := CState.run Rnd.exact ⟨⟨.py 0, true, true⟩, some (.const 0)⟩ [.eager (.update (1/2))]
+     bad.q.eff Rnd.exact = 1/2 ∧ bad.ceff Rnd.exact = 0) := by
+  decide +kernel
+
+/-- modelled, not a clause: an explicit SECOND `build(use_variables=True)` after the trace makes a
+    fresh Variable; the graph keeps reading the old one (1/4), the attribute follows the update.
+    (`QNoiseScheduler.set_quantizers` re-builds only quantizers whose factor is not a Variable.) -/
+theorem C07_compiled_rebuild_stale_witness :
+    let c := CState.run Rnd.exact ⟨⟨.var (1/4), true, true⟩, some .live⟩
+                [.eager (.build true), .eager (.update 1)]
+    c.q.eff Rnd.exact = 1 ∧ c.cap = some (.stale (1/4)) ∧ c.ceff Rnd.exact = 1/4 := by
+  decide +kernel
+
+/-- non-vacuity of the hypotheses of `C07_compiled_variable_mode` (scheduler-shaped history) -/
+example : (⟨.py 1, false, false⟩ : QState).step Rnd.exact (.setUseVars true) |>.1.varMode = true := by
+  decide +kernel
+example : (∀ op ∈ [Op.setUseVars true, .update 0], op ≠ Op.setUseVars false ∧ op ≠ Op.build false) ∧
+    (∀ op ∈ [Op.update (1/4), .call, .build false, .setUseVars false, .updateFromVar (1/2)],
+      op ≠ Op.build true) := by
+  decide
+
 /-! ## 3. calculate_qnoise_factor -/
 
 /-- `r ↦ r^(k+1)` with exact arithmetic satisfies the hypotheses (exponent a positive natural) -/
